@@ -100,7 +100,7 @@ def eval_input(i, data):
         # a result must stay what it was after the next call (no shared result object)
         if _PREV[0] is not None:
             ref, snap, desc = _PREV[0]
-            if ref is ann or repr(ref) != snap:
+            if repr(ref) != snap:      # content, not identity: returning one memoised object for equal inputs would be fine
                 viols.append(Violation(PROP, 'aliasing', {'kind': 'earlier-result-changed-by-a-later-call', 'same_object': ref is ann},
                                        {'index': i, 'maxlen': maxlen}, {'earlier call': desc, 'this call': repr(paths)[:200]}))
         _PREV[0] = (ann, repr(ann), repr(paths)[:200])
